@@ -98,6 +98,9 @@ type FnExec struct {
 	backEdge map[[2]int]bool
 	loopHead map[int]*loopInfo
 	retVals  [][]Val
+	deferred []deferredCall
+	frame    []modTarget
+	frameOK  bool
 	nalloc   int
 	strConst map[string]string
 	outside  []string // reasons the function leaves the supported subset
@@ -108,6 +111,12 @@ type FnExec struct {
 	onCall   func(fx *FnExec, call ssa.CallInstruction, args []Val, res *Val)
 	onReturn func(fx *FnExec, ret *ssa.Return, vals []Val)
 	onStore  func(fx *FnExec, instr ssa.Instruction, pl *Place, v Val)
+}
+
+type deferredCall struct {
+	in    *ssa.Defer
+	args  []Val
+	block *ssa.BasicBlock
 }
 
 type loopInfo struct {
@@ -223,7 +232,7 @@ func (w *World) structName(t types.Type) string {
 	if n, ok := t.(*types.Named); ok {
 		name := n.Obj().Name()
 		if n.Obj().Pkg() != nil && n.Obj().Pkg() != w.Pkg.Pkg {
-			name = n.Obj().Pkg().Name() + "_" + name
+			name = strings.ReplaceAll(n.Obj().Pkg().Path(), "/", "_") + "_" + name
 		}
 		return sanitize(name)
 	}
@@ -250,7 +259,11 @@ func (w *World) structInfoOf(t types.Type) *structInfo {
 	for i := 0; i < st.NumFields(); i++ {
 		f := st.Field(i)
 		fs := w.sortOf(f.Type())
-		si.fields = append(si.fields, fmt.Sprintf("%s.%s", si.sort, sanitize(f.Name())))
+		fname := sanitize(f.Name())
+		if f.Name() == "_" {
+			fname = fmt.Sprintf("blank%d", i)
+		}
+		si.fields = append(si.fields, fmt.Sprintf("%s.%s", si.sort, fname))
 		si.fsorts = append(si.fsorts, fs)
 	}
 	w.structOrder = append(w.structOrder, name)
